@@ -115,7 +115,7 @@ BREAKS = [
     dict(id="c17_guard_1e-10", targets=["C17", "C01"], edits=[([COMMON], "-xt if (denominator < sys.float_info.epsilon)", "-xt if (denominator < 1e-10)"),
                                                              ([COMMON], "if denominator < sys.float_info.epsilon:\n        return 1 if (x < 0) else 0", "if denominator < 1e-10:\n        return 1 if (x < 0) else 0")]),
     dict(id="c17_w_from_float32_like_v", targets=["C17"], edits=[([COMMON], "return v(x, t) * (v(x, t) + xt)", "vv = round(v(x, t), 7)\n    return vv * (vv + xt)")]),
-    dict(id="c17_wt_guard_1e-5", targets=["C17", "C01"], edits=[([COMMON], "if b < sys.float_info.epsilon:\n        return 1.0", "if b < 1e-9:\n        return 1.0")]),
+    dict(id="c17_wt_guard_1e-3", targets=["C17", "C01"], edits=[([COMMON], "if b < sys.float_info.epsilon:\n        return 1.0", "if b < 1e-3:\n        return 1.0")]),
     # ---------------------------------------------------------------- C18
     dict(id="c18_le_is_lt_one_class", targets=["C18", "C19"], edits=[([BTF], "if self.ordinal() <= other.ordinal():", "if self.ordinal() < other.ordinal():")]),
     dict(id="c18_gt_mu_only", targets=["C18", "C19"], edits=[([TMP], "if self.ordinal() > other.ordinal():", "if self.mu > other.mu:")]),
@@ -127,7 +127,7 @@ BREAKS = [
     dict(id="c19_param_renamed_one_copy", targets=["C19"], edits=[([TMF], "    def ordinal(self, z: float = 3.0) -> float:", "    def ordinal(self, z: float = 3) -> float:")]),
     # ---------------------------------------------------------------- C20
     dict(id="c20_mu_or_default", targets=["C20"], edits=[([BTF], "mu if mu is not None else self.mu,", "mu or self.mu,")]),
-    dict(id="c20_deepcopy_drops_name", targets=["C20", "C02", "C19"], edits=[([PL], "pl = PlackettLuceRating(self.mu, self.sigma, self.name)", "pl = PlackettLuceRating(self.mu, self.sigma)")]),
+    dict(id="c20_deepcopy_drops_name", targets=["C20", "C02", "C19"], edits=[([PL], "plr = PlackettLuceRating(self.mu, self.sigma, self.name)", "plr = PlackettLuceRating(self.mu, self.sigma)")]),
     dict(id="c20_deepcopy_new_id", targets=["C20", "C19"], edits="DEEPCOPY_NEW_ID"),
     dict(id="c20_create_rating_float_cast", targets=["C20"], edits=[([TMF], "return ThurstoneMostellerFullRating(mu=rating[0], sigma=rating[1])", "return ThurstoneMostellerFullRating(mu=abs(rating[0]) if rating[0] == 0 else rating[0], sigma=rating[1])")]),
 ]
@@ -150,6 +150,9 @@ BENIGN = [
     dict(id="ok_unwind_sorted_range", edits=[([COMMON], "            zipped_matrix = list(zip(unsorted_matrix[0], unsorted_matrix[1]))\n            zipped_matrix.sort(key=_pick_zeroth_index)\n            sorted_matrix = [x for _, x in zipped_matrix]",
                                               "            order = sorted(range(len(objects_to_sort)), key=lambda i: tenet[i])\n            sorted_matrix = [[objects_to_sort[i], i] for i in order]")]),
     dict(id="ok_erfc_scaled_constant", edits=[([COMMON], "return 0.5 * math.erfc(-x / math.sqrt(2.0))", "return math.erfc(-x * 0.7071067811865476) / 2.0")]),
+    # W~ guard moved from eps to 1e-9: where the band mass is below 1e-9 the exact W~ is within 20t of 1, i.e. inside the
+    # allowance C17 states (this entry started life in the break catalogue and was "missed": it is conformant)
+    dict(id="ok_wt_guard_1e-9", edits=[([COMMON], "if b < sys.float_info.epsilon:\n        return 1.0", "if b < 1e-9:\n        return 1.0")]),
     dict(id="ok_rating_slots_free_refactor", edits=[([BTP], "        if isinstance(other, BradleyTerryPartRating):\n            if self.mu == other.mu and self.sigma == other.sigma:\n                return True\n            else:\n                return False",
                                                       "        if isinstance(other, BradleyTerryPartRating):\n            return self.mu == other.mu and self.sigma == other.sigma")]),
 ]
